@@ -15,6 +15,12 @@ META = {
             "HistoricalScheduler and the per-command clock and run log must be one the spec allows. Exhaustive up to the stated "
             "command budget, simulated beyond it.",
             "TLC 1.8; the replayer's command codec; tick = 1 s", "DESIGN.md 6 C28, D.4"),
+    "C29": ("TLC liveness check of the run loop (VirtualTime.tla with the spin nudge, Spin.tla) + exported histories and at-scale same-instant batches performed on the real schedulers under a watchdog",
+            "TLC checks <>[](driver returned) under weak fairness on the run-loop model with the clock nudge enabled, and on Spin.tla "
+            "(n = k*limit+delta same-instant actions, self-rescheduling, restart); every exported history is performed with the spin "
+            "limit patched to 1 and every Spin scenario with limits 1, 2 and the real 100 on numeric and datetime clocks; a driver "
+            "call that does not return within the watchdog (confirmed by a longer retry) is a violation.",
+            "TLC 1.8; watchdog = wall clock (5 s, confirmed with 20-40 s); MAX_SPINNING patched as a module attribute for the small variants", "DESIGN.md 6 C29"),
 }
 
 
